@@ -8,10 +8,10 @@ def register(K):
                modifies=["self.filepath", "self.info"], allocates=False,
                ensures=["self.filepath is filepath", "self.info is info"])
     K.contract("loader.load",
-               params="file: stream?, max_acceptable_severity: analysis.Severity = Severity.LIKELY_SAFE, print_results: val = False, "
+               params="file: val, max_acceptable_severity: analysis.Severity = Severity.LIKELY_SAFE, print_results: val = False, "
                       "json_output_path: val = None, *args: empty, **kwargs: val",
                returns="val",
-               requires=["pickle.loads is stock_loads()"],
+               requires=["pickle.loads is stock_loads()", "is_bytes_or_stream(file)"],
                may_raise=["exception.UnsafeFileError", "Exception"],
-               modifies=["@list.items:nodeowned", "@ast.lineno", "@ast.col_offset", "@iterator.pos"],
+               modifies=["@list.items:nodeowned", "@ast.lineno", "@ast.col_offset", "@iterator.pos", "@stream.position"],
                ensures=[])
